@@ -1,6 +1,6 @@
 //! Contracts for `src/geometry/algorithms/convex_hull.rs`: the staleness protocol.
 use super::*;
-use crate::core::triangulation_data_structure::CellKey;
+use crate::core::triangulation_data_structure::{CellKey, Tds};
 use crate::geometry::kernel::FastKernel;
 use slotmap::KeyData;
 
